@@ -55,4 +55,13 @@ var extraProps = map[string][]string{
 	"CODECSYM":             {"C14"},
 	"ROOTFIELDS":           {"C04"},
 	"CLEANSKIP":            {"C03"}, // the skip is sound only because clean ⇒ already stored
+	// copy-on-write is what makes a reloaded tree independent of its source (C05, "with or without a node cache"),
+	// what keeps "same root name ⇒ same contents" true in memory (C08), what makes a failed operation harmless
+	// before the root swap (C12), and what C01 quantifies over ("cache on/off")
+	"OWN":        {"C01", "C05", "C08", "C12"},
+	"SHAREDPUB":  {"C01", "C05", "C08", "C12"},
+	"FLAGS":      {"C01", "C05", "C08", "C12"},
+	"ALIAS":      {"C01", "C05", "C08", "C12", "C11"},
+	"CACHEAFTER": {"C11"}, // one tree's unfinished write must not make another tree skip its own
+	"ATOMICFILE": {"C18"}, // a successful file Store has written the bytes
 }
